@@ -823,9 +823,8 @@ loop:
 func (gs *GossipSubRouter) OnClosedOutboundStream(p peer.ID) {
 	gs.logger.Debug("PEERDOWN: Remove disconnected peer", "peer", p)
 	gs.tracer.OnClosedOutboundStream(p)
-	if gs.feature(GossipSubFeatureExtensions, gs.peers[p]) {
-		gs.extensions.OnClosedOutboundStream(p)
-	}
+	// for peers of every protocol version: see extensionsState.OnClosedOutboundStream
+	gs.extensions.OnClosedOutboundStream(p)
 	delete(gs.peers, p)
 	for topic, peers := range gs.mesh {
 		if _, ok := peers[p]; ok {
